@@ -31,7 +31,9 @@ RULE = ('cases = (statement text from the typed SQL model over schema t1..t4, ta
         'read outside of it; or any case of the other streams): the rendering by the used object is judged like any other.  '
         'Shapes also cover operands of set operations (flat chains, parenthesised operands, operands with their own WITH '
         'clause, first columns written qualified / bare / as expressions): SQLite reads no parenthesised operand, the '
-        'ground truth is the statement with every parenthesised operand P spelled SELECT * FROM (P)')
+        'ground truth is the statement with every parenthesised operand P spelled SELECT * FROM (P); and a table read '
+        'without alias by the outer query and again, next to another table, by a sub-query (EXISTS / IN / scalar / derived '
+        'table / DELETE)')
 ASSUMPTIONS = ['sqlite3 (SQLite 3.40) is the reference engine; mysql/postgresql output is judged only when SQLite can '
                'execute it', 'the statement is parsed with the mindsdb dialect; parsing itself is not judged here',
                'MSSQL / Oracle output cannot be executed here',
@@ -58,13 +60,14 @@ FLOORS = {'quick': {'__nontrivial__': 400, 'target:sqlite': 800, 'kind:select': 
                     'tag:reuse': 150, 'tag:reuse:history:refused-in-nested-setop': 80, 'tag:reuse:history:rendered': 25,
                     'tag:reuse:refused-nested-setop-then-scoped-cte': 15,
                     'tag:cte:in-subquery': 100, 'tag:cte:name-shadows-outer-table': 80,
-                    'tag:cte:own-of-parenthesised-operand': 15, 'tag:setop-operand': 55, 'tag:setop:parenthesised-operand': 40,
-                    'tag:setop:nested-operand-first-column:qualified': 12, 'tag:added-label:func': 3},
+                    'tag:cte:own-of-parenthesised-operand': 15, 'tag:setop-operand': 35, 'tag:setop:parenthesised-operand': 25,
+                    'tag:setop:nested-operand-first-column:qualified': 10, 'tag:added-label:func': 3,
+                    'tag:table:unaliased-repeated-in-subquery': 25},
           'thorough': {'__nontrivial__': 5000, 'kind:select': 15000, 'kind:dml': 3500, 'tag:order-matrix': 2160,
                        'tag:reuse': 1500, 'tag:reuse:refused-nested-setop-then-scoped-cte': 150, 'tag:cte:in-subquery': 1000,
                        'tag:setop-operand': 500, 'tag:cte:own-of-parenthesised-operand': 120}}
 N = {'quick': 300, 'thorough': 4000}
-N_SHAPES = {'quick': 130, 'thorough': 1500}
+N_SHAPES = {'quick': 150, 'thorough': 1700}
 N_REUSE = {'quick': 90, 'thorough': 1000}
 TARGETS = ['sqlite', 'sqlite', 'mysql', 'postgresql']
 CFG = model.Cfg(places={}, always_alias=True, order_by_source=True)
